@@ -77,19 +77,44 @@ Theorem C17_bisection_step_count_exists : forall (pr : @oc_params R) (w : R), 0 
 Proof. exact halvings_exist. Qed.
 Print Assumptions C17_bisection_step_count_exists.
 
-(* "volume equal to the prescribed maximum to bisection tolerance whenever reachable", in multiplier space:
-   when both ends of the interval moved (the target volume is bracketed), the returned design is the update at
-   one end of a final interval of length <= l1l2tol, vol(b) <= maxvol < vol(a), and its volume differs from
-   the target by at most vol(a) - vol(b) *)
-Theorem C17_volume_to_bisection_tolerance_partial : forall (pr : @oc_params R) maxvol (x g : list R) fuel l1 l2 last a b xnew,
-  0 <= l1 <= l2 -> nonneg x -> nonpos g -> length g = length x ->
-  bisect ROOps pr maxvol x g fuel l1 l2 last = BisDone a b (Some xnew) -> a <> l1 -> b <> l2 ->
+(* the bracket-growing loop of the repaired code (finding F19): it ends (k steps suffice once l2init * 10^k >= 1e300,
+   and such a k exists for every positive l2init), and whenever the target volume is reachable from below within the
+   move limits -- sum_i max(xmin_i, x_i - move) <= maxvol -- the grown multiplier (unless it hit 1e300) gives a
+   volume <= maxvol, i.e. the bisection starts bracketed from above *)
+Theorem C17_bracket_growing_terminates : forall (pr : @oc_params R) maxvol (x g : list R) k fuel l2 xn0,
+  10 ^ 300 <= l2 * 10 ^ k -> (k <= fuel)%nat -> grow ROOps pr maxvol x g fuel l2 xn0 <> GrowOutOfFuel.
+Proof. exact grow_terminates. Qed.
+Print Assumptions C17_bracket_growing_terminates.
+
+Theorem C17_bracket_growing_step_count_exists : forall l2 : R, 0 < l2 -> exists k : nat, 10 ^ 300 <= l2 * 10 ^ k.
+Proof. exact growth_steps_exist. Qed.
+Print Assumptions C17_bracket_growing_step_count_exists.
+
+Theorem C17_bracket_growing_reaches_volume : forall (pr : @oc_params R) maxvol (x g : list R) fuel l2 l2g xng,
+  in_box pr x -> 0 <= move pr -> length g = length x ->
+  grow ROOps pr maxvol x g fuel l2 (oc_xnew ROOps pr l2 x g) = GrowDone l2g xng ->
+  osum ROOps (oc_lower ROOps pr x) <= maxvol -> l2g < 10 ^ 300 ->
+  xng = oc_xnew ROOps pr l2g x g /\ osum ROOps (oc_xnew ROOps pr l2g x g) <= maxvol.
+Proof. exact grow_brackets. Qed.
+Print Assumptions C17_bracket_growing_reaches_volume.
+
+(* "volume equal to the prescribed maximum to bisection tolerance whenever reachable within the move limits":
+   one OC step (growing + bisection).  If the volume is reachable from below within the move limits, the multiplier
+   did not hit 1e300 and the lower end of the interval moved (reachable from above inside the interval), the new
+   design is the update at one end of a final interval [a, b] with b - a <= l1l2tol and vol(b) <= maxvol < vol(a),
+   so its volume differs from maxvol by at most vol(a) - vol(b) *)
+Theorem C17_volume_to_bisection_tolerance_partial : forall (pr : @oc_params R) maxvol (x g : list R) gfuel bfuel l2g xng a b xnew,
+  in_box pr x -> 0 <= move pr -> nonneg x -> nonpos g -> length g = length x ->
+  0 <= l1init pr <= l2init pr ->
+  grow ROOps pr maxvol x g gfuel (l2init pr) (oc_xnew ROOps pr (l2init pr) x g) = GrowDone l2g xng ->
+  bisect ROOps pr maxvol x g bfuel (l1init pr) l2g (Some xng) = BisDone a b (Some xnew) ->
+  osum ROOps (oc_lower ROOps pr x) <= maxvol -> l2g < 10 ^ 300 -> a <> l1init pr ->
   let vol := fun lam => osum ROOps (oc_xnew ROOps pr lam x g) in
-  l1 < a <= b /\ b < l2 /\ b - a <= l1l2tol pr /\
+  l1init pr < a <= b /\ b - a <= l1l2tol pr /\
   (xnew = oc_xnew ROOps pr a x g \/ xnew = oc_xnew ROOps pr b x g) /\
   vol b <= maxvol < vol a /\ vol b <= osum ROOps xnew <= vol a /\
   Rabs (osum ROOps xnew - maxvol) <= vol a - vol b.
-Proof. exact bisect_volume_bracket. Qed.
+Proof. exact oc_step_volume. Qed.
 Print Assumptions C17_volume_to_bisection_tolerance_partial.
 (* partial: the size of vol(a) - vol(b) for a given l1l2tol depends on the data (no Lipschitz bound is proved);
    the observed volume gap is validated on the implementation by the check. *)
